@@ -304,6 +304,46 @@ Definition render_insert (c : qclass) (row : list term) : res string :=
 Definition with_suffix (r : res string) (sfx : string) : res string := s <- r ;; Ok (s ++ sfx).
 
 (* ------------------------------------------------------------------------------------------------ *)
+(* 5b. what select() leaves in the select list around '*' and table stars                              *)
+(* ------------------------------------------------------------------------------------------------ *)
+(* QueryBuilder.select folds its arguments: Field instances (Star included) go through _select_field, which ignores them
+   after select('*') and after a star of their table, and a Star removes the fields of its table selected before it;
+   the string '*' replaces the whole list by [Star()]; EVERY other term (_select_other: functions, arithmetic, CASE, criteria,
+   sub-queries, constants) is appended unconditionally -- also after a star, with its alias *)
+Definition table_of (t : term) : option (option tref) :=
+  match t with TField _ tb _ | TStar tb => Some tb | _ => None end.
+Definition is_fieldlike (t : term) : bool := is_some (table_of t).
+Definition otref_eqb (a b : option tref) : bool := option_eqb tref_eqb a b.
+Record selstate := { st_star : bool; st_tabs : list (option tref); st_sels : list term }.
+Definition sel_step (st : selstate) (i : sitem) : selstate :=
+  match i with
+  | SStar => {| st_star := true; st_tabs := st_tabs st; st_sels := [TStar None] |}
+  | ST t =>
+      let app := {| st_star := st_star st; st_tabs := st_tabs st; st_sels := st_sels st ++ [t] |} in
+      match table_of t with
+      | None => app
+      | Some tb =>
+          if st_star st then st
+          else if existsb (otref_eqb tb) (st_tabs st) then st
+          else match t with
+               | TStar _ =>
+                   {| st_star := false; st_tabs := tb :: st_tabs st;
+                      st_sels := filter (fun x => negb (match table_of x with Some tb' => otref_eqb tb tb' | None => false end))
+                                        (st_sels st) ++ [t] |}
+               | _ => app
+               end
+      end
+  end.
+Definition sel_state0 : selstate := {| st_star := false; st_tabs := []; st_sels := [] |}.
+Definition normalize_sel (l : list sitem) : list term := st_sels (fold_left sel_step l sel_state0).
+
+(* the extracted rows: program -> texts of the surviving select items *)
+Definition star_ctx : ctx :=
+  {| q := Some """"; sq := Some "'"; aq := None; askw := false; dia := None; wa := true; wn := true; subq := true; subc := false |}.
+Definition star_row_ok (r : list sitem * list string) : bool :=
+  list_eqb String.eqb (map (render_text star_ctx) (normalize_sel (fst r))) (snd r).
+
+(* ------------------------------------------------------------------------------------------------ *)
 (* 6. specification-side renderings used by the theorems                                              *)
 (* ------------------------------------------------------------------------------------------------ *)
 Definition else_text (c : ctx) (els : oterm) : res string :=
